@@ -222,6 +222,10 @@ def build(V, cls, depth=0, tag="x"):
     for t, val in TUNABLES.items():
         if val is not None and hasattr(obj, t) and t not in kwargs:
             try:
+                if t == "max_attempts":
+                    val = V.int(f"{tag}_maxatt", 1, 100000)  # symbolic: any value, incl. other classes' defaults
+                elif t == "default_label":
+                    val = V.int(f"{tag}_deflab", -2, 50)
                 setattr(obj, t, val)
             except AttributeError:
                 pass
